@@ -52,7 +52,7 @@ def for_obligation(eng, run, o):
     if run is not None and getattr(run, "uses_bits", False):
         from . import bits
         out += bits.axioms()
-    if run is not None and (getattr(run, "rev_pairs", None) or getattr(run, "zfill_terms", None) or getattr(run, "binval_terms", None)):
+    if run is not None and (getattr(run, "rev_pairs", None) or getattr(run, "zfill_terms", None) or getattr(run, "binval_terms", None) or getattr(run, "uses_strlib", False)):
         from . import strings
         out += strings.axioms(run)
     return out
